@@ -178,6 +178,9 @@ func (this *Hnsw) Remove(id uuid.UUID) error {
 		for l := vertex.level; l >= 0; l-- {
 			vertex.edgeMutexes[l].RLock()
 			for neighbor, distance := range vertex.edges[l] {
+				if neighbor.isDeleted() {
+					continue
+				}
 				if distance < minDistance {
 					minDistance = distance
 					closestNeighbor = neighbor
@@ -188,6 +191,11 @@ func (this *Hnsw) Remove(id uuid.UUID) error {
 			if closestNeighbor != nil {
 				break
 			}
+		}
+		if closestNeighbor == nil {
+			// No live neighbor to hand over to. Fall back to any live vertex
+			// so that a non-empty index never loses its entrypoint.
+			closestNeighbor = this.highestLevelVertex()
 		}
 		atomic.CompareAndSwapPointer(&this.entrypoint, currEntrypoint, unsafe.Pointer(closestNeighbor))
 	}
@@ -288,6 +296,23 @@ func (this *Hnsw) removeVertex(id uuid.UUID) (*hnswVertex, error) {
 	}
 
 	return nil, ItemNotFoundError
+}
+
+func (this *Hnsw) highestLevelVertex() *hnswVertex {
+	var result *hnswVertex
+	for i := 0; i < VERTICES_MAP_SHARD_COUNT; i++ {
+		this.verticesMu[i].RLock()
+		for _, vertex := range this.vertices[i] {
+			if vertex.isDeleted() {
+				continue
+			}
+			if result == nil || vertex.level > result.level {
+				result = vertex
+			}
+		}
+		this.verticesMu[i].RUnlock()
+	}
+	return result
 }
 
 func (this *Hnsw) greedyClosestNeighbor(query math.Vector, entrypoint *hnswVertex, minDistance float32, level int) (*hnswVertex, float32) {
